@@ -214,6 +214,7 @@ def run(ctx, rep):
                        fn=g.path, key="C06.failure-equivalence|%s|fpzero#%d" % (op, i))
     fold_width(F, rep)
     literal_kinds(F, rep)
+    only_table_operators_are_folded(F, rep)
 
 
 def _leaves(fn, local, through, depth=0, seen=None):
@@ -247,6 +248,46 @@ def _helper_returns_evaluations(F, call, through):
         return False
     lv = _leaves(g, 0, through)
     return bool(lv) and all(x[0] == "call" and x[1].endswith("::try_constexpr_eval") for x in lv)
+
+
+def only_table_operators_are_folded(F, rep, rule="C06.fold-entry"):
+    """The agreement of folder and interpreter is decided per operator, by comparing their kind tables and primitives: that covers the operators
+    the folder dispatches to `impl ops for &Number`.  A binary operator folded any other way (say, comparisons through `partial_cmp` on
+    f64 parses: exact at run time, lossy above 2^53 here) is outside of what was compared.  In the BinOp arm of Expr::try_constexpr_eval
+    every value that is handed back as folded is a Value::Number that comes out of one of those operator calls."""
+    ent = [f for f in F.all_fns() if f.path.endswith("::try_constexpr_eval") and "math_expr::Expr" in f.path and "CompileTimeEvaluate" in f.path]
+    if len(ent) != 1:
+        raise AnchorMissing("impl CompileTimeEvaluate for Expr")
+    ent = ent[0]
+    ea = F.adt("compiler::ast::math_expr::Expr")
+    names = [v["name"] for v in ea["variants"]]
+    bi_idx = str(names.index("BinOp"))
+    arm = None
+    doms = ent.dominators()
+    for b, blk in enumerate(ent.blocks):
+        t = blk["t"]
+        if t["k"] == "switch" and t.get("dty") == "isize":
+            dl = op_local(t["discr"])
+            for s_ in blk["s"]:
+                rv = s_.get("rv") or {}
+                if "d" in s_ and s_["d"]["l"] == dl and "discr" in rv and rv["discr"]["l"] == 1:
+                    tg = dict(t["targets"]).get(bi_idx)
+                    if tg is not None:
+                        arm = {x for x in range(len(ent.blocks)) if tg in doms.get(x, ())}
+    if not arm:
+        raise AnchorMissing("the BinOp arm of Expr::try_constexpr_eval")
+    bad = []
+    n = 0
+    for bi, si, dst, rv, st in ent.assigns():
+        if bi in arm and "agg" in rv and str(rv["agg"].get("adt", "")).endswith("value::Value"):
+            n += 1
+            if rv["agg"].get("v") != "Number":
+                bad.append((rv["agg"].get("v"), st.get("us") or st.get("sp")))
+    rep.ob(rule, "a binary operator on two literals folds to a number that comes out of the operator tables, or is not folded", "violated" if bad else "ok",
+           ("the BinOp arm also hands back Value::%s: an operator is folded outside of the tables that are compared with the interpreter "
+            "(`B9007199254740993 > B9007199254740992` folds to false through f64)" % sorted({b[0] for b in bad})) if bad else "%d folded values built in the arm" % n,
+           bad[0][1] if bad else ent.span, fn=ent.path, key=rule + "|only-tables")
+    rep.floor(rule + " folded values built in the BinOp arm", n, 1)
 
 
 def literal_kinds(F, rep, rule="C06.literal-kind"):
